@@ -14,6 +14,9 @@ use serde_json::{json, Value};
 
 use crate::report::Tally;
 
+/// Progress value a worker sets while it runs its fixed warm-up input.
+pub const WARMUP: u64 = u64::MAX - 1;
+
 pub struct Progress(File);
 
 impl Progress {
@@ -180,6 +183,13 @@ pub fn run_isolated(
 				workers.remove(i);
 				if idx == u64::MAX {
 					panic!("MACHINERY: worker {part} was lost before it started its first job: {why}");
+				}
+				if idx == WARMUP {
+					// lost while exercising the fixed warm-up input: a finding of that input; this part is
+					// not restarted (it would die the same way)
+					let (case, desc) = describe(usize::MAX);
+					merged.tally.bad(if why.contains("signal") { "abort-or-crash:warm-up" } else { "abnormal-exit:warm-up" }, case, format!("{desc}: {why}"));
+					continue;
 				}
 				let (case, desc) = describe(idx as usize);
 				let class = if why.contains("no progress") { "hang".to_string() } else if why.contains("signal") { format!("abort-or-crash:{}", why.split_whitespace().nth(4).unwrap_or("?").trim_end_matches(';')) } else { "abnormal-exit".into() };
